@@ -3,6 +3,7 @@ from .. import soups, px, contexts, monitor, docgrammar
 from ..alphabets import SIG
 from ..engine import exc_key, exc_detail, ddmin, Result, hyp_run
 from ..treedump import kind
+from ..contexts import EXTRA_TOKENS
 
 ID = 'C19'
 LEVEL = 'exploration'
@@ -187,6 +188,7 @@ def plan(tier, seed):
     ndocs, L, nrand = (3200, 3, 1600) if tier == 'quick' else (80000, 4, 40000)
     shards = [('docs', ndocs // NSHARDS, seed * 1000 + k) for k in range(NSHARDS)]
     shards += [('soup', L, k) for k in range(NSHARDS)]
+    shards += [('xsoup', L, k) for k in range(NSHARDS)]
     shards += [('rand', nrand // NSHARDS, seed * 1000 + 500 + k) for k in range(NSHARDS)]
     return {'shards': shards, 'bounds': {'documents': ndocs, 'soup_len': L, 'random_soups': nrand},
             'required_classes': ['cb:' + c for c in CALLBACK.values()] +
@@ -219,6 +221,13 @@ def run_shard(shard, res):
             c = docgrammar.CTX_OF[signame]
             do_source(src, c, False, res, {'src': src, 'ctx': c, 'tolerant': False})
         hyp_run(docgrammar.source_strategy(), one, n, seed)
+    elif kind_ == 'xsoup':
+        _, L, k = shard
+        for toks in soups.enum_tokens(EXTRA_TOKENS, L, k, NSHARDS):
+            s = ''.join(toks)
+            for tol in (False, True):
+                do_source(s, 'extra', tol, res, {'src': s, 'ctx': 'extra', 'tolerant': tol})
+        res.exhaustive = True
     elif kind_ == 'soup':
         _, L, k = shard
         for toks in soups.enum_tokens(SIG, L, k, NSHARDS):
